@@ -58,6 +58,37 @@ def showRes : Res → String
   | .err .dnserr => "dnserr"
   | .err .cannot => "cannot"
 
+structure DSt where
+  s : St := {}
+  validating : Bool := false
+
+def showPub : PubRes → String
+  | .ok => "ok"
+  | .badseq => "badseq"
+  | .puterr => "puterr"
+
+def resOf (c : Conc) (i : Nat) : String :=
+  match c.pcs[i]? with
+  | some (_, .done r) => showPub r
+  | _ => "unfinished"
+
+def stepLineD (d : DSt) (line : String) : DSt × String :=
+  match (line.trimAscii.toString.splitOn " ").filter (· ≠ "") with
+  | ["ns", c, m, "v"] =>
+    match c.toNat?, optMins m with
+    | some c, some m => ({ s := { cap := c, maxTTL := m }, validating := true }, "ok")
+    | _, _ => (d, "bad-op")
+  | ["cpublish", k, pa, ta, qa, pb, tb, qb, mode] =>
+    match k.toNat?, parsePath pa, optMins ta, optNat qa, parsePath pb, optMins tb, optNat qb with
+    | some k, some pa, some ta, some qa, some pb, some tb, some qb =>
+      let c0 := initConc (tick d.s) [{ k := k, value := pa, ttl := ta, seq := qa }, { k := k, value := pb, ttl := tb, seq := qb }]
+      -- "seq": A runs to completion, then B. "late": A's routing put and cache update happen after B finished.
+      let sched := if mode == "late" then [0, 0, 1, 1, 1, 1, 0, 0] else [0, 0, 0, 0, 1, 1, 1, 1]
+      let c := runSched d.validating c0 sched
+      ({ d with s := c.st }, s!"{resOf c 0} {resOf c 1} {seqs c.st k}")
+    | _, _, _, _, _, _, _ => (d, "bad-op")
+  | _ => (d, "")
+
 def stepLine (s0 : St) (line : String) : St × String :=
   let s := tick s0
   match (line.trimAscii.toString.splitOn " ").filter (· ≠ "") with
@@ -100,12 +131,19 @@ def stepLine (s0 : St) (line : String) : St × String :=
     | _, _ => (s0, "bad-op")
   | _ => (s0, "bad-op")
 
-partial def loop (h : IO.FS.Stream) (out : IO.FS.Stream) (st : St) : IO Unit := do
+partial def loop (h : IO.FS.Stream) (out : IO.FS.Stream) (d : DSt) : IO Unit := do
   let line ← h.getLine
   if line.isEmpty then return ()
-  let (st', o) := stepLine st line
-  out.putStrLn o
-  loop h out st'
+  -- ops that need the driver-level flag first, everything else through `stepLine`
+  let (d1, o1) := stepLineD d line
+  if o1 != "" then
+    out.putStrLn o1
+    loop h out d1
+  else
+    let (st', o) := stepLine d.s line
+    out.putStrLn o
+    let isCase := (line.trimAscii.toString.splitOn " ").head? == some "case" || (line.trimAscii.toString.splitOn " ").head? == some "ns"
+    loop h out { s := st', validating := if isCase then false else d.validating }
 
 def main : IO Unit := do
   let out ← IO.getStdout
